@@ -29,6 +29,17 @@ Theorem C21_eq2_other :
 Proof. intros T N tbl res keys l r. exact (assert_eq2_other N tbl res keys l r). Qed.
 Print Assumptions C21_eq2_other.
 
+(* lists are equal only if they have the same length: a comparison that stops at the
+   shorter list (prefix = equal) is excluded *)
+Theorem C21_eq2_list_length :
+  forall (T : Type) (N : numops T) tbl res keys x y,
+    p_assert_eq2 N tbl res keys (VL x) (VL y) = Continue -> List.length x = List.length y.
+Proof.
+  intros T N tbl res keys x y H. apply (value_eqb_list_length N tbl res keys x y).
+  apply (assert_eq2_other N tbl res keys (VL x) (VL y)); [intros q; discriminate | exact H].
+Qed.
+Print Assumptions C21_eq2_list_length.
+
 (* exact level: assert_eq(a, b) succeeds iff a and b denote the same quantity *)
 Theorem C21_eq2_exact :
   forall tbl, good_table tbl -> forall keys a b a',
